@@ -30,5 +30,9 @@ func (name Name) ID() uint64 {
 // Release calls to the Names' Pool to release itself. The
 // restrictions and affects of Pool.Release apply.
 func (name *Name) Release() {
+	if name == nil {
+		return
+	}
+
 	name.pool.Release(name)
 }
